@@ -101,7 +101,17 @@ func poison(t schema.Type, v *aval.V) bool {
 	case t.Ref != nil:
 		if n := S.Lookup(*t.Ref); n.Kind == "record" {
 			for _, f := range S.AllFields(n) {
-				if x, ok := v.Flds[f.Name]; ok && poison(f.Type, x) {
+				x, ok := v.Flds[f.Name]
+				if !ok && ((f.Type.Array != nil && bad(*f.Type.Array) != nil) || (f.Type.Map != nil && bad(*f.Type.Map) != nil)) {
+					// an absent optional container of enums / unions: add it
+					if f.Type.Array != nil {
+						x = aval.Array()
+					} else {
+						x = aval.Map()
+					}
+					v.Flds[f.Name], ok = x, true
+				}
+				if ok && poison(f.Type, x) {
 					return true
 				}
 			}
@@ -134,6 +144,37 @@ func poisonableActions() []*dyn.MethodInfo {
 		}
 	})
 	return poisonableList
+}
+
+var (
+	poisonableMOnce sync.Once
+	poisonableMList []*dyn.MethodInfo
+)
+
+// poisonableMethods: the actions above plus every method returning (or creating with return of) an entity whose type
+// has an array / map of enums or unions.
+func poisonableMethods() []*dyn.MethodInfo {
+	poisonableMOnce.Do(func() {
+		poisonableMList = append(poisonableMList, poisonableActions()...)
+		for _, mi := range methods {
+			if mi.M.Kind == "ACTION" || mi.Entity == nil || !poison(*mi.Entity, validValue(*mi.Entity)) {
+				continue
+			}
+			switch mi.Rest() {
+			case "get", "get_all":
+				poisonableMList = append(poisonableMList, mi)
+			case "create", "partial_update":
+				if mi.M.ReturnEntity {
+					poisonableMList = append(poisonableMList, mi)
+				}
+			default:
+				if mi.M.Kind == "FINDER" {
+					poisonableMList = append(poisonableMList, mi)
+				}
+			}
+		}
+	})
+	return poisonableMList
 }
 
 func defaultStatus(mi *dyn.MethodInfo) int {
@@ -298,6 +339,9 @@ func checkErr(rec *stats.Recorder, c errCase) (msg string, known string) {
 		if m := judgeCall(pmi, &pcall, pgot, perr, psl); m != "" {
 			return fail("a get right after the call does not return its entity: %s", m)
 		}
+		if psl != nil && len(psl.wire) > 0 && psl.wire[len(psl.wire)-1].Status != 200 {
+			return fail("a successful get right after the call was answered %d, want 200 (nothing of the earlier exchange may leak into it)", psl.wire[len(psl.wire)-1].Status)
+		}
 	}
 	return "", ""
 }
@@ -332,18 +376,31 @@ func TestC08Errors(t *testing.T) {
 		case "panic":
 			c.Outcome = dyn.Outcome{Err: &dyn.ErrM{Panic: rapid.SampledFrom([]string{"kaboom", "index out of range [1]", "50% done %s"}).Draw(rt, "panic")}}
 		case "unserialisable-result":
-			// an action whose result cannot be serialised (an illegal enum constant / a union without member inside an
-			// array or map of the result): the failure happens after part of the response was written
-			ami := poisonableActions()
-			if len(ami) == 0 {
+			// a result that cannot be serialised (an illegal enum constant / a union without member inside an array or map
+			// of an action result, an entity, a created entity or a finder element): the failure happens after part of
+			// the response was written, and after the method wrapper chose its success status
+			pms := poisonableMethods()
+			if len(pms) == 0 {
 				c.Kind = "default-status"
 				break
 			}
-			mi = ami[pick(rt, len(ami), "paction")]
+			mi = pms[pick(rt, len(pms), "pmethod")]
 			c.Call = genCall(rt, g, mi)
-			v := g.Value(rt, *mi.M.Return, 1)
-			poison(*mi.M.Return, v)
-			c.Outcome = dyn.Outcome{Action: v}
+			c.Outcome = genOutcome(rt, g, mi, &c.Call)
+			switch {
+			case mi.M.Kind == "ACTION":
+				poison(*mi.M.Return, c.Outcome.Action)
+			case c.Outcome.Created != nil && c.Outcome.Created.Entity != nil:
+				poison(*mi.Entity, c.Outcome.Created.Entity)
+			case c.Outcome.Entity != nil:
+				poison(*mi.Entity, c.Outcome.Entity)
+			case c.Outcome.HasElements:
+				e := g.Value(rt, *mi.Entity, 1)
+				poison(*mi.Entity, e)
+				c.Outcome.Elements = append(c.Outcome.Elements, e)
+			default:
+				c.Kind = "default-status"
+			}
 		case "nil-result":
 			// only methods that return something can return nil
 			if mi.M.Kind == "ACTION" || mi.Rest() == "update" || mi.Rest() == "delete" || (mi.Rest() == "partial_update" && !mi.M.ReturnEntity) {
